@@ -25,7 +25,7 @@ What is PROVED here (all unbounded: any number of upstream states, any axis size
                           dictionary inclusion = the reference's selection by restricting the job's coordinates.
   * witnesses (kernel evaluation of both interpreters): diamond (D2), descendant (D31), second-pass TypeError (D30),
     partial zip combiner (D29), all-previous-axes combiner (D37), later upstream through two fields (D38), node name
-    contained in a foreign combiner key (D39), key order of a combined state (D46).
+    contained in a foreign combiner key (D39).  `C03_witness_key_order` documents the key bookkeeping of D46 (fixed).
   * `C03_workflow_Simple_partial`   THE WORKFLOW-LEVEL STATEMENT ON THE CLASS `Simple` (WfState/Simple.lean; proof in
                           WfState/Whole*.lean): any number of nodes, any wiring (chains, fan-ins, fan-outs into separate
                           branches), own splitters absent / over one field / OUTER over two fields, any list lengths ≥ 1,
@@ -250,21 +250,28 @@ theorem C03_witness_name_clash :
     specSummary nameClashWf = .ok [(0, 3), (1, 3)] [[[1, 0, 0], [1, 0, 0], [1, 0, 0]]] ∧
     (Class.flags nameClashWf).nameClash = true := by decide +kernel
 
-/-- D46: `p` (two own axes) and `q` (one inherited axis + two own axes) feed `n`, which combines its own splitter. -/
+/-- D46 (FIXED in /repo 932a47fa): `p` (two own axes) and `q` (one inherited axis + two own axes) feed `n`, which combines
+    its own splitter. -/
 def keyOrderWf : Wf :=
   { nodes := [nd 0 l2 .none .none (.single .x),
               nd 1 (.lst [.int 7]) (.lst [.int 8]) .none (.outer .x .y),
               nd 2 (.lst [.int 5]) (.lst [.int 6]) (.up 0) (.outer .x .y),
               nd 3 (.up 1) (.up 2) (.lst [.int 9]) (.single .z) [(3, .z)]], outs := [3] }
 
-/-- WITNESS D46: for the combined state `State.splits` lists the keys as `[0.x, 1.x, 1.y, 2.x, 2.y]` (the unprocessed left
-    operand `0.x` of the processed group `2.x 2.y *` is put in front of everything) while the index tuples are nested
-    `((1.x, 1.y), (0.x, (2.x, 2.y)))`; the tuple looked up in `ind_map` is a permutation that does not exist: KeyError.  The
-    reference runs two jobs. -/
+/-- What is left of node 3's splitter after its combiner: `((1.x, 1.y), (0.x, (2.x, 2.y)))`. -/
+def keyOrderTree : Tree :=
+  .outer (.outer (.leaf (1, .x)) (.leaf (1, .y))) (.outer (.leaf (0, .x)) (.outer (.leaf (2, .x)) (.leaf (2, .y))))
+
+/-- D46, documentation: on this splitter the OLD key bookkeeping of `State.splits` (`Tree.splitsKeys`:
+    `keys = new_keys_L + keys`) put `0.x` in front of everything, while the index tuples — and the fixed bookkeeping
+    (`keys = keys_L + keys_R` = `Tree.leaves`) — are in nesting order; with the fix the model of the code agrees with the
+    reference on the workflow (two jobs of node 3), which is inside the class again. -/
 theorem C03_witness_key_order :
-    modelSummary keyOrderWf = .crash .keyError ∧
+    keyOrderTree.splitsKeys = [(0, .x), (1, .x), (1, .y), (2, .x), (2, .y)] ∧
+    keyOrderTree.leaves = [(1, .x), (1, .y), (0, .x), (2, .x), (2, .y)] ∧
+    modelSummary keyOrderWf = specSummary keyOrderWf ∧
     specSummary keyOrderWf = .ok [(0, 2), (1, 1), (2, 2), (3, 2)] [[[], []]] ∧
-    (Class.flags keyOrderWf).keyOrder = true ∧ (Class.flags keyOrderWf).shared = false := by decide +kernel
+    (Class.flags keyOrderWf).keyOrder = true ∧ Class.inClass keyOrderWf = true := by decide +kernel
 
 /-- The FULL statement of C03 for the model of the code: every well-formed workflow evaluates as the nested-loop
     reference says.  NOT claimed — it is false for the pinned tree (next theorem). -/
